@@ -3,6 +3,7 @@
 package main
 
 import (
+	"context"
 	"encoding/json"
 	"fmt"
 	"math/rand"
@@ -13,7 +14,11 @@ import (
 
 	proxyv1alpha1 "github.com/kubewharf/kubegateway/pkg/apis/proxy/v1alpha1"
 	"github.com/kubewharf/kubegateway/pkg/clusters"
+	upstreamclusteradmission "github.com/kubewharf/kubegateway/plugin/admission/upstreamcluster"
 	metav1 "k8s.io/apimachinery/pkg/apis/meta/v1"
+	"k8s.io/apimachinery/pkg/runtime"
+	"k8s.io/apimachinery/pkg/types"
+	"k8s.io/apiserver/pkg/admission"
 
 	mg "verifharness/matchgen"
 	"verifharness/rig"
@@ -360,6 +365,31 @@ func genMatch(c *rig.Ctx, raw bool) MatchCase {
 type SeqStep struct {
 	Sync  *int                   `json:"sync,omitempty"`  // install policy list Versions[*Sync]
 	Attrs map[string]interface{} `json:"attrs,omitempty"` // or route this request
+	// metadata of the object delivered by a sync step, as the control plane would set it: the generation (0 = not set; a
+	// re-created object restarts at 1), its uid, and whether the object went through the admission plugin (defaulting +
+	// rule normalisation) on its way into the store. None of them may influence routing: the expected answer is always
+	// computed from the SUBMITTED policy list.
+	Gen   int64  `json:"gen,omitempty"`
+	UID   string `json:"uid,omitempty"`
+	Admit bool   `json:"admit,omitempty"`
+}
+
+var (
+	admScheme = runtime.NewScheme()
+	admPlugin admission.MutationInterface
+)
+
+// admitted passes the object through the real admission plugin as a CREATE (old == nil) or an UPDATE of old.
+func admitted(uc, old *proxyv1alpha1.UpstreamCluster) error {
+	var oldObj runtime.Object
+	op := admission.Create
+	var opts runtime.Object = &metav1.CreateOptions{}
+	if old != nil {
+		oldObj, op, opts = old, admission.Update, &metav1.UpdateOptions{}
+	}
+	attrs := admission.NewAttributesRecord(uc, oldObj, proxyv1alpha1.SchemeGroupVersion.WithKind("UpstreamCluster"), "", "c",
+		proxyv1alpha1.SchemeGroupVersion.WithResource("upstreamclusters"), "", op, opts, false, nil)
+	return admPlugin.Admit(context.Background(), attrs, admission.NewObjectInterfacesFromScheme(admScheme))
 }
 
 type SeqCase struct {
@@ -382,11 +412,29 @@ func runSeq(c *rig.Ctx, sc SeqCase, record bool) bool {
 	}
 	defer ci.Stop()
 	cur := -1
+	var stored *proxyv1alpha1.UpstreamCluster
+	how := ""
 	for k, st := range sc.Steps {
 		if st.Sync != nil {
-			cur = *st.Sync
-			ps := policiesOf(MatchCase{Policies: sc.Versions[cur]})
-			ci.Sync(&proxyv1alpha1.UpstreamCluster{ObjectMeta: metav1.ObjectMeta{Name: "c"}, Spec: proxyv1alpha1.UpstreamClusterSpec{DispatchPolicies: ps}})
+			ps := policiesOf(MatchCase{Policies: sc.Versions[*st.Sync]})
+			uc := &proxyv1alpha1.UpstreamCluster{ObjectMeta: metav1.ObjectMeta{Name: "c", Generation: st.Gen, UID: types.UID(st.UID)}, Spec: proxyv1alpha1.UpstreamClusterSpec{DispatchPolicies: ps}}
+			if st.Admit {
+				old := stored
+				if old != nil && old.UID != uc.UID {
+					old = nil // another uid: the object was deleted and created again
+				}
+				var err error
+				msg, panicked := rig.Recover(func() { err = admitted(uc, old) })
+				if panicked {
+					return fail("judge", "c01.panic", fmt.Sprintf("step %d: the admission plugin panicked: %s", k, msg))
+				}
+				if err != nil {
+					continue // refused: the stored object, and what is in force, stay as they are
+				}
+			}
+			cur, stored = *st.Sync, uc.DeepCopy()
+			how = fmt.Sprintf("delivered with generation %d, uid %q, admitted=%v", st.Gen, st.UID, st.Admit)
+			ci.Sync(uc)
 			continue
 		}
 		if cur < 0 {
@@ -410,8 +458,8 @@ func runSeq(c *rig.Ctx, sc SeqCase, record bool) bool {
 			return fail("diff", "c01.model-error", "model error "+err.Error())
 		}
 		if got != m.SpecIdx {
-			return fail("judge", "c01.sequence", fmt.Sprintf("step %d: on the long-lived ClusterInfo the request is routed under policy %d, but the first policy of the CURRENT list (version %d) with a matching rule is %d — the decision depends on something else than the request and the current policy list",
-				k, got, cur, m.SpecIdx))
+			return fail("judge", "c01.sequence", fmt.Sprintf("step %d: on the long-lived ClusterInfo the request is routed under policy %d, but the first policy of the CURRENT list (version %d) with a matching rule is %d (that list was %s) — the decision depends on something else than the request and the current policy list",
+				k, got, cur, m.SpecIdx, how))
 		}
 	}
 	return true
@@ -447,7 +495,7 @@ func genSeq(c *rig.Ctx, raw bool) SeqCase {
 	r := c.Rng
 	sc := SeqCase{Kind: "seq"}
 	var rules []proxyv1alpha1.DispatchPolicyRule
-	for v, nv := 0, 1+r.Intn(2); v < nv; v++ {
+	for v, nv := 0, 1+r.Intn(3); v < nv; v++ {
 		ver := [][]map[string]interface{}{}
 		for i, n := 0, 1+r.Intn(4); i < n; i++ {
 			p := []map[string]interface{}{}
@@ -463,13 +511,30 @@ func genSeq(c *rig.Ctx, raw bool) SeqCase {
 		}
 		sc.Versions = append(sc.Versions, ver)
 	}
-	zero := 0
-	sc.Steps = append(sc.Steps, SeqStep{Sync: &zero})
+	// object metadata along the history: generations count up, repeat (an event delivered again, or a metadata-only
+	// update), or restart at 1 under a new uid (delete + re-create under the same name); a third of the histories goes
+	// through the admission plugin
+	gen, uid, admit := int64(0), "", r.Intn(3) == 0
+	if r.Intn(3) > 0 {
+		gen, uid = 1, "u1"
+	}
+	zero, curV := 0, 0
+	sc.Steps = append(sc.Steps, SeqStep{Sync: &zero, Gen: gen, UID: uid, Admit: admit})
 	var seen []mg.Attrs
 	for k, n := 0, 6+r.Intn(10); k < n; k++ {
-		if len(sc.Versions) > 1 && r.Intn(8) == 0 {
+		if r.Intn(6) == 0 {
 			v := r.Intn(len(sc.Versions))
-			sc.Steps = append(sc.Steps, SeqStep{Sync: &v})
+			switch {
+			case gen == 0: // no metadata: any list may follow
+			case r.Intn(5) == 0:
+				v = curV // the same object delivered again (resync, requeue): same generation, same uid, same spec
+			case r.Intn(4) == 0:
+				gen, uid = 1, uid+"'" // deleted and created again under the same name: generation restarts, new uid
+			default:
+				gen++ // an update (a spec change bumps the generation; so does an annotation change that keeps the spec)
+			}
+			curV = v
+			sc.Steps = append(sc.Steps, SeqStep{Sync: &v, Gen: gen, UID: uid, Admit: admit})
 			continue
 		}
 		var a mg.Attrs
@@ -635,8 +700,10 @@ func runAny(c *rig.Ctx, raw json.RawMessage, record bool) bool {
 
 func main() {
 	rig.QuietKlog()
+	proxyv1alpha1.AddToScheme(admScheme)
+	admPlugin = upstreamclusteradmission.NewUpstreamClusterPlugin().(admission.MutationInterface)
 	rig.Main("C01", func(c *rig.Ctx) {
-		c.SetRule("field cases: one of the 7 field matchers on a rule list (0-4 entries from a 39-token colliding universe or raw bytes; classes empty/star/positive/mixed/inverted-1/inverted-n) against request values from a 29-token universe; match cases: 0-4 policies x 0-3 rules against a request tuple, through clusters.MatchPolicies, RuleMatches and ClusterInfo.MatchAttributes; sequence cases: 6-15 requests (derived from the rules, single-attribute variants of earlier requests, repeats) and policy-list changes on ONE long-lived ClusterInfo; concurrent cases: 4-16 goroutines matching 24 requests against the same policy list (long all-inverted lists), every answer compared with the sequentially computed spec. distinct = distinct canonical case; non-trivial = the rule list is not empty and not match-all (field) / at least one policy has a rule (match)")
+		c.SetRule("field cases: one of the 7 field matchers on a rule list (0-4 entries from a 39-token colliding universe or raw bytes; classes empty/star/positive/mixed/inverted-1/inverted-n) against request values from a 29-token universe; match cases: 0-4 policies x 0-3 rules against a request tuple, through clusters.MatchPolicies, RuleMatches and ClusterInfo.MatchAttributes; sequence cases: 6-15 requests (derived from the rules, single-attribute variants of earlier requests, repeats) and policy-list changes on ONE long-lived ClusterInfo, the delivered objects carrying generations / uids as the control plane sets them (counting up, repeated, restarting at 1 after a re-create) and, in a third of the histories, passing through the real admission plugin first (the expected route is always that of the SUBMITTED list); concurrent cases: 4-16 goroutines matching 24 requests against the same policy list (long all-inverted lists), every answer compared with the sequentially computed spec. distinct = distinct canonical case; non-trivial = the rule list is not empty and not match-all (field) / at least one policy has a rule (match)")
 		if c.Replay != "" {
 			var raw json.RawMessage
 			if err := c.LoadReplay(&raw); err != nil {
